@@ -834,6 +834,14 @@ func HandleStore(deps ServerDeps, conn net.Conn, tag string, parts []string, sta
 		return
 	}
 
+	// Validate flags: anything but an atom could not be sent back in a FLAGS list
+	for _, flag := range newFlags {
+		if !ValidFlag(flag) {
+			deps.SendResponse(conn, fmt.Sprintf("%s BAD Invalid flag", tag))
+			return
+		}
+	}
+
 	// Get user database
 	userDB, targetUserID, err := deps.GetSelectedDB(state)
 	if err != nil {
@@ -963,6 +971,23 @@ func HandleStore(deps ServerDeps, conn net.Conn, tag string, parts []string, sta
 	}
 
 	deps.SendResponse(conn, fmt.Sprintf("%s OK STORE completed", tag))
+}
+
+// ValidFlag reports whether flag is an RFC 3501 flag: an atom, optionally
+// preceded by one backslash (system flag or flag-extension). An atom is one or
+// more 7-bit characters other than controls, space and ( ) { % * " \ ]
+func ValidFlag(flag string) bool {
+	atom := strings.TrimPrefix(flag, "\\")
+	if atom == "" {
+		return false
+	}
+	for i := 0; i < len(atom); i++ {
+		c := atom[i]
+		if c <= ' ' || c >= 0x7f || strings.IndexByte("(){%*\"\\]", c) >= 0 {
+			return false
+		}
+	}
+	return true
 }
 
 // hasFlag reports whether a space-separated flags string contains the given flag
@@ -1354,6 +1379,13 @@ func HandleAppendWithReader(deps ServerDeps, reader io.Reader, conn net.Conn, ta
 			flags = strings.Join(strings.Fields(fullLine[startIdx+1:endIdx]), " ")
 		}
 	}
+	for _, flag := range strings.Fields(flags) {
+		if !ValidFlag(flag) {
+			discardLiteral()
+			deps.SendResponse(conn, fmt.Sprintf("%s BAD Invalid flag", tag))
+			return
+		}
+	}
 
 	if literalStartIdx == -1 || literalEndIdx == -1 || literalStartIdx > literalEndIdx {
 		deps.SendResponse(conn, fmt.Sprintf("%s BAD APPEND requires message size", tag))
@@ -1497,6 +1529,12 @@ func HandleAppend(deps ServerDeps, conn net.Conn, tag string, parts []string, fu
 		endIdx := strings.Index(fullLine, ")")
 		if startIdx < endIdx {
 			flags = strings.Join(strings.Fields(fullLine[startIdx+1:endIdx]), " ")
+		}
+	}
+	for _, flag := range strings.Fields(flags) {
+		if !ValidFlag(flag) {
+			deps.SendResponse(conn, fmt.Sprintf("%s BAD Invalid flag", tag))
+			return
 		}
 	}
 
